@@ -1,5 +1,5 @@
 #!/bin/bash
-# procseed.sh Cxx [other props to run as well]: confirm both seeded changes of /tmp/seed/Cxx (tests pass, demo fails with / passes
+# procseed.sh Cxx [other props to run as well]: confirm both seeded changes of ${SEEDROOT:-/tmp/seed}/Cxx (tests pass, demo fails with / passes
 # without the patch), then run the registered quick checks against a scratch copy with each patch applied (seedtest.py).
 P=$1; shift
 mkdir -p /root/seedlogs
@@ -8,7 +8,7 @@ L=/root/seedlogs/$P.log
   echo "== confirm"; bash /verif/tools/confirmseeds.sh $P
   for N in 1 2; do
     echo "== seedtest patch_$N"
-    python3 /verif/tools/seedtest.py /tmp/seed/$P/out/patch_$N.diff $P "$@" 2>&1 | tail -12
+    python3 /verif/tools/seedtest.py ${SEEDROOT:-/tmp/seed}/$P/out/patch_$N.diff $P "$@" 2>&1 | tail -12
   done
 } > $L 2>&1
 tail -30 $L
